@@ -1,6 +1,6 @@
 (* C01 — Double-entry conservation per asset.  Statements only. *)
 From Coq Require Import List ZArith String Bool Lia.
-From LV Require Import Base.Util Ledger.Types Ledger.Core Ledger.VolProofs Ledger.Invariants.
+From LV Require Import Base.Util Ledger.Types Ledger.Core Ledger.VolProofs Ledger.Invariants Ledger.Reads Ledger.GroupProofs.
 Import ListNotations.
 Open Scope Z_scope.
 
@@ -32,6 +32,13 @@ Proof.
 Qed.
 Print Assumptions C01_moves_pairs.
 
+(* grouped volume listings (GetVolumesWithBalances with groupBy = g, Reads.group_volumes): grouping keeps the total input and
+   the total output of every asset, so after any history the grouped listing of the current volumes conserves every asset *)
+Theorem C01_grouped_conservation : forall f h g c,
+  total_in c (group_volumes g (s_vols (run f h))) = total_out c (group_volumes g (s_vols (run f h))).
+Proof. exact grouped_conservation. Qed.
+Print Assumptions C01_grouped_conservation.
+
 Local Open Scope string_scope.
 Example C01_example :
   let f := {| f_moves := true; f_pcev := true; f_acc_hist := false; f_tx_hist := false; f_hash := false |} in
@@ -39,4 +46,12 @@ Example C01_example :
   let p2 := {| p_src := "alice"; p_dst := "alice"; p_asset := "EUR"; p_amt := 0 |} in
   let h := [(10, {| o_in := ICreate [p1; p2] None "" [] [] true; o_ik := ""; o_dry := false |})] in
   total_in "USD" (s_vols (run f h)) = 100 /\ total_out "USD" (s_vols (run f h)) = 100 /\ List.length (s_vols (run f h)) = 3%nat.
+Proof. vm_compute. repeat split; reflexivity. Qed.
+Example C01_grouped_example :
+  let f := {| f_moves := true; f_pcev := true; f_acc_hist := false; f_tx_hist := false; f_hash := false |} in
+  let p1 := {| p_src := "world"; p_dst := "users:1"; p_asset := "USD"; p_amt := 100 |} in
+  let p2 := {| p_src := "users:1"; p_dst := "users:2:main"; p_asset := "USD"; p_amt := 30 |} in
+  let h := [(10, {| o_in := ICreate [p1; p2] None "" [] [] true; o_ik := ""; o_dry := false |})] in
+  group_volumes 1 (s_vols (run f h)) = [(("world", "USD"), (0, 100)); (("users", "USD"), (130, 30))] /\
+  total_in "USD" (group_volumes 1 (s_vols (run f h))) = 130 /\ total_out "USD" (group_volumes 1 (s_vols (run f h))) = 130.
 Proof. vm_compute. repeat split; reflexivity. Qed.
